@@ -13,7 +13,8 @@ from vlib import shim as shimmod
 LEVEL = "exploration"
 RULE = ("generated histories of 2-40 operations {set_profile(bunch, kind, scale), wake, pad, csr(cutoff)} over one field; "
         "configuration per history: n, nb in 1..3, buckets (with empty ones), spacing, transform length N from the pool "
-        "(power of two / composite / odd / prime), complex impedance, constructor flavour (CSR-only or wake-capable). "
+        "(power of two / composite / odd / prime), complex impedance (dense, band-limited with an exact zero tail / head, sparse, "
+        "all zero), constructor flavour (CSR-only or wake-capable). "
         "non-trivial = at least two distinct profiles were installed and at least one request follows the second; "
         "distinct = case hash")
 ASSUMPTIONS = ["two FFTW plans created from the same wisdom for the same length and alignment execute identically"]
@@ -72,13 +73,26 @@ def run_case(case):
     for b in range(nb):
         s.ps_set_projection(ps, 0, b, profile(r, n, "smooth", 1.0))
     z = ((10 ** r.uniform(-2, 2, N)) * np.exp(1j * r.uniform(0, 2 * np.pi, N))).astype(np.complex64)
+    # impedances with exact zeros: band-limited tables (an impedance file shorter than the frequency axis is padded with
+    # zeros by the factory), low-frequency cut-offs, isolated zeros.  Buffers that are "still zero from last time" only stay
+    # so if nobody scribbles on them (round-3 seed C18c: bins above the last non-zero sample no longer rewritten, while
+    # FFTW's complex-to-real transform uses its input as scratch space)
+    zk = case.get("zkind", "dense")
+    if zk == "zero_tail":
+        z[int(case["zcut"] * (N // 2)):] = 0
+    elif zk == "zero_head":
+        z[:max(1, int(case["zcut"] * (N // 2)))] = 0
+    elif zk == "sparse":
+        z[r.random(N) < 0.5] = 0
+    elif zk == "allzero":
+        z[:] = 0
     imp = s.imp_array(z, 1e12)
     ef = make_field(s, ps, imp, case)
     nprof = 1
     requests_after_second = 0
     prev = None
     hist = []
-    cls = ["wakecap" if case["wakecap"] else "csronly", gen.nclass(N), "nb%d" % nb,
+    cls = ["wakecap" if case["wakecap"] else "csronly", gen.nclass(N), "nb%d" % nb, "Z_" + case.get("zkind", "dense"),
            "spaced" if case["spacing"] > 0 and max(case["buckets"]) > 0 else "unspaced"]
     for i, op in enumerate(case["ops"]):
         kind = op[0]
@@ -130,7 +144,12 @@ def cases(draw):
             ops.append(["csr", draw(st.sampled_from([0.0, 0.0, 1e9, 1e11]))])
         else:
             ops.append([k])
-    return dict(n=n, buckets=buckets, spacing=spacing, N=N, wakecap=wakecap, ops=ops, dseed=draw(gen.seeds()))
+    zkind = draw(st.sampled_from(["dense", "dense", "dense", "zero_tail", "zero_tail", "zero_head", "sparse", "allzero"]))
+    c = dict(n=n, buckets=buckets, spacing=spacing, N=N, wakecap=wakecap, ops=ops, dseed=draw(gen.seeds()))
+    if zkind != "dense":
+        c["zkind"] = zkind
+        c["zcut"] = draw(st.sampled_from([0.02, 0.1, 0.25, 0.5, 0.75, 0.9, 0.99]))
+    return c
 
 
 def subs(tier):
